@@ -112,6 +112,30 @@ class TensorMeta(FunsorMeta):
         return super(TensorMeta, cls).__call__(data, inputs, dtype)
 
 
+_AXIS_PARAMS = ("axis", "dim", "axis1", "axis2", "dim1", "dim2")
+
+
+def _rebase_axes(op, ndims, nbatch):
+    """
+    Re-express nonnegative axis parameters of ``op``, which count from the left
+    of the output shape, as negative ones, so that they address the same
+    dimension of an array with ``nbatch`` leading batch dimensions.
+    """
+    params = dict(op.defaults)
+    # unsqueeze inserts a dimension: positions refer to the result's rank
+    rank = ndims + 1 if isinstance(op, ops.UnsqueezeOp) else ndims
+    for name in _AXIS_PARAMS:
+        value = params.get(name)
+        if isinstance(value, int) and not isinstance(value, bool) and value >= 0:
+            params[name] = value - rank
+    dims = params.get("dims")
+    if isinstance(dims, tuple) and len(dims) == ndims:
+        params["dims"] = tuple(range(nbatch)) + tuple(nbatch + d % ndims for d in dims)
+    if params == op.defaults:
+        return op
+    return type(op)(**params)
+
+
 class Tensor(Funsor, metaclass=TensorMeta):
     """
     Funsor backed by a PyTorch Tensor or a NumPy ndarray.
@@ -332,6 +356,8 @@ class Tensor(Funsor, metaclass=TensorMeta):
 
     def eager_unary(self, op):
         dtype = find_domain(op, self.output).dtype
+        if self.inputs and op.defaults:
+            op = _rebase_axes(op, len(self.output.shape), len(self.inputs))
         return Tensor(op(self.data), self.inputs, dtype)
 
     def eager_reduce(self, op, reduced_vars):
